@@ -1,0 +1,11 @@
+//go:build verif
+
+package ssh
+
+import "golang.org/x/crypto/ssh/internal/bcrypt_pbkdf"
+
+// VerifC19BcryptPBKDFKey exposes ssh/internal/bcrypt_pbkdf.Key to the verification
+// harness in /verif (property C19).
+func VerifC19BcryptPBKDFKey(password, salt []byte, rounds, keyLen int) ([]byte, error) {
+	return bcrypt_pbkdf.Key(password, salt, rounds, keyLen)
+}
